@@ -70,7 +70,7 @@ class pmusic(ParametricSpectrum):
             # we need to flip the data
             self.psd = newpsd[::-1]
         else:
-            self.psd = centerdc_2_twosided(psd)
+            self.psd = np.fft.ifftshift(psd)
 
         self.scale()
         return self
@@ -133,7 +133,7 @@ class pev(ParametricSpectrum):
             # we need to flip the data
             self.psd = newpsd[::-1]
         else:
-            self.psd = centerdc_2_twosided(psd)
+            self.psd = np.fft.ifftshift(psd)
 
         self.scale()
         return self
@@ -308,7 +308,8 @@ def eigen(X, P, NSIG=None, method='music', threshold=None, NFFT=default_NFFT,
 
     #return PSD, S
 
-    newpsd = np.append(PSD[nby2:0:-1], PSD[nby2*2-1:nby2-1:-1])
+    # PSD[j] holds the value at frequency -j/NFFT: reverse, then center on DC
+    newpsd = np.fft.fftshift(np.roll(PSD[::-1], 1))
     return newpsd, S
 
 
